@@ -38,7 +38,10 @@ def holdsC15 (d : Xml) (v : RoView) : Bool :=
       (Xml.childText (some it) "itemID", Xml.childText (some it) "itemSlug", Xml.childText (some it) "objType",
        Xml.childText (some it) "objID", Xml.childText (some it) "mosID"))) &&
   v.roSlug == (rcOf d).bind (fun rc => Xml.childText (some rc) "roSlug") &&
-  v.completed == completed d
+  v.completed == completed d &&
+  -- absent optional data yields None: no roEdStart ⇒ no start; a story without payload has no duration
+  (((rcOf d).bind (fun rc => rc.find "roEdStart")).isSome || v.start == none) &&
+  (v.stories.zip ss).all (fun (sv, s) => (payloadOf s).isSome || sv.duration == none)
 
 /-- C16: every arithmetic relation, recomputed from the XML (unique story IDs assumed by the caller
     for the offset clause) -/
